@@ -1,7 +1,7 @@
 #!/bin/bash
 # tools_demo.sh <seed-id> [extra g++ args] — run a seeded change's demonstration on the patched and on the unpatched tree
 # (scratch worktree /tmp/wt_confirm). Header-only demos; others are run by hand.
-sid=$1; shift; d=/verif/seeded/$sid; wt=/tmp/wt_confirm
+sid=$1; shift; d=/verif/seeded/$sid; wt=${WT:-/tmp/wt_confirm}
 cd $wt; git checkout -q -- .
 res=""
 for mode in unpatched patched; do
